@@ -77,7 +77,7 @@ S['tool'] = [
 S['computation'] = [
     ('long_name', 'LONG-NAME', 'ref_or_text:long_name'), ('properties', 'PROPERTIES', 'enums:Property'),
     ('dimension', 'DIMENSION', 'dim'), ('axis', 'AXIS', 'refs:axis'), ('zones', 'ZONES', 'refs:zone'),
-    ('values', 'VALUES', 'numsN'), ('source', 'SOURCE', 'ref:any')]
+    ('values', 'VALUES', 'numsN'), ('source', 'SOURCE', 'objref')]
 S['process'] = [
     ('description', 'DESCRIPTION', 'text'), ('trademark_name', 'TRADEMARK-NAME', 'text'), ('version', 'VERSION', 'text'),
     ('properties', 'PROPERTIES', 'enums:Property'), ('status', 'STATUS', 'enum:ProcessStatus'),
